@@ -3,7 +3,8 @@
 For every DOM d of the domain (abstract sheets of bounded/gen.py in several spellings + hand-written sheets with @variables, unknown at-rules holding bare
 '-' '#' '@', calc(), !important, :not(), namespaces, duplicate / invalid / empty declarations + the token-adjacency family `adjacency_sources`: every ordered pair of
 31 token classes (+ a block) as neighbours in an unknown at-rule, 6 compounds x 4 combinators x 11 compounds in selectors, 23 media lists on @media / nested @media /
-@import, functions next to and inside each other in values) and every preference assignment P of the tier
+@import, functions next to and inside each other in values + the number grid `number_sources`: every number spelling sign x integer part x fraction x unit around the
+thresholds -1, 0, 1 as list component, function argument and calc() operand) and every preference assignment P of the tier
 (every preference alone with each non-default value, all pairs, the minified preset, the minified preset with each one of its preferences put back to the default,
 a pairwise covering array over the full value domains, seeded random full assignments):
 
@@ -14,7 +15,8 @@ a pairwise covering array over the full value domains, seeded random full assign
              every content preference (`expected`): keepComments, keepUnknownAtRules, keepAllProperties, validOnly, resolveVariables, keepEmptyRules,
              keepUsedNamespaceRulesOnly; the spelling preferences leave the projection unchanged
   CL_SPELL   the spelling preferences show in the text exactly as documented (`spelling_faults`): literal vs normalised at-keyword / property name / priority,
-             @import href as string or url(), hash shortening, leading zero, last semicolon, variable names
+             @import href as string or url(), hash shortening, leading zero (and nothing but a zero goes: the written numbers, read as decimal literals, are those of the
+             source), last semicolon, variable names
   CL_LAYOUT  the layout preferences change white space only: the S-free token sequence equals that of the same assignment with the layout preferences reset
              (tokens read by the CSS grammar: an identifier glued to '(' is a FUNCTION token, also 'and(' which cssutils' own tokenizer forgives)
   CL_RESTORE prefs.useDefaults() restores the default output byte for byte (checked after every assignment)
@@ -754,6 +756,15 @@ def _numbers(toks):
     return [v for ty, v in toks if ty in ('NUMBER', 'DIMENSION', 'PERCENTAGE')]
 
 
+def _decimal(tok):
+    """the decimal number a NUMBER / DIMENSION / PERCENTAGE token text starts with (exact, up to six fractional digits - beyond that C18 has the say), else None"""
+    import decimal
+    m = _NUMTOK.match(tok)
+    if not m or not (m.group(2) or m.group(3)) or len(m.group(3) or '') > 6:
+        return None
+    return decimal.Decimal(m.group(1) + (m.group(2) or '0') + '.' + (m.group(3) or '0'))
+
+
 def _value_faults(xd, vd, P):
     out = []
     # minimizeColorHash: "defines if colorhash should be minimized from full size to shorthand e.g minimize #FFFFFF to #FFF"
@@ -764,7 +775,14 @@ def _value_faults(xd, vd, P):
             want = ('#' + s[1] + s[3] + s[5]) if (short and P['minimizeColorHash']) else s
             if g.lower() != want.lower():
                 out.append('hash %r written for the source %r, documented: %r (minimizeColorHash=%r)' % (g, s, want, P['minimizeColorHash']))
-    # omitLeadingZero: "defines if values between -1 and 1 should omit the 0, like .5px"
+    # omitLeadingZero: "defines if values between -1 and 1 should omit the 0, like .5px" - a zero is all that may go: read as decimal literals (independently of cssutils'
+    # number handling) the written numbers are the numbers of the source, under every assignment
+    srcn, gotn = _numbers(xd['src']['value']), _numbers(vd['value'])
+    if len(srcn) == len(gotn) and not _has_var(xd['value']):
+        for s, g in zip(srcn, gotn):
+            ds, dg = _decimal(s), _decimal(g)
+            if ds is not None and dg is not None and ds != dg:
+                out.append('number %r written for the source %r: a different number (omitLeadingZero=%r)' % (g, s, P['omitLeadingZero']))
     for g in _numbers(vd['value']):
         m = _NUMTOK.match(g)
         if not m or m.group(3) is None:
@@ -908,6 +926,39 @@ def adjacency_sources(tier):
     return out
 
 
+# Numbers: the serializer rewrites every number (integral -> no fraction, trailing zeros cut, zero -> '0', omitLeadingZero for "values between -1 and 1") and decides by the
+# VALUE of the number, so the domain is the grid of number spellings around the thresholds -1, 0 and 1 and beyond: sign x integer part x fraction x unit, in every place a
+# number can stand in a value (component of a list, argument of a function, operand of calc()).
+NUM_SIGNS = ['', '-', '+']
+NUM_INTS = ['', '0', '00', '1', '2', '10', '999']
+NUM_FRACS = [None, '0', '5', '05', '50', '25', '125', '000001']
+NUM_UNITS = ['', 'px', 'em', '%', 's', 'x']
+
+
+def number_spellings(sign, ip, unit):
+    return [sign + ip + ('' if fr is None else '.' + fr) + unit for fr in NUM_FRACS if ip or fr is not None]
+
+
+def number_sources(tier):
+    """one sheet per (sign, integer part, unit) with the spellings of all fractions as components of one value / arguments of one function; calc() operands per (sign, integer
+    part) for the length unit; thorough: also every spelling alone in a valid declaration (so that validOnly does not hide it)"""
+    out = []
+    info = {'core': True, 'family': 'numbers'}
+    for sign in NUM_SIGNS:
+        for ip in NUM_INTS:
+            for unit in NUM_UNITS:
+                nums = number_spellings(sign, ip, unit)
+                tag = '%s|%s|%s' % (sign, ip, unit)
+                out.append(('numbers/list:' + tag, 'a { x: %s }' % ' '.join(nums), info))
+                out.append(('numbers/function:' + tag, 'a { x: f(%s) }' % ', '.join(nums), info))
+                if unit == 'px':
+                    out.append(('numbers/calc:' + tag, 'a { x: %s }' % ' '.join('calc(1px + %s)' % n_ for n_ in nums), info))
+                if tier == 'thorough' and unit in ('', 'px', 'em', '%'):
+                    for n_ in nums:
+                        out.append(('numbers/single:' + tag, 'a { margin-left: %s }' % n_, info))
+    return out
+
+
 def dom_sources(tier, seed):
     """[(label, source text, info)] - deterministic.
     core (info['core'], both tiers): of the QUICK enumeration of the generator the rule-level sheets (every rule variant, every ordered pair of rule kinds) in 3 spellings,
@@ -919,7 +970,7 @@ def dom_sources(tier, seed):
     core_sheets = set()
     for label, a in gen.enumerate_sheets('quick', seed):
         kind = label.split(':')[0]
-        if not (label.startswith(('rule/', 'rules2/', 'full', 'decl')) or kind not in seen_kinds):
+        if not (label.startswith(('rule/', 'rules2/', 'full', 'decl', 'value/single')) or kind not in seen_kinds):
             continue
         seen_kinds.add(kind)
         core_sheets.add(a)
@@ -935,6 +986,7 @@ def dom_sources(tier, seed):
     for label, text in EXTRA:
         out.append(('extra/' + label, text, {'core': True}))
     out += adjacency_sources(tier)
+    out += number_sources(tier)
     if tier == 'thorough':
         k = 0
         for label, a in gen.enumerate_sheets('thorough', seed):
@@ -1188,10 +1240,12 @@ def _worker(args):
     assigns_rest = [a for a in assigns if a[0] in ('defaults', 'minified', 'pairwise-row')]
     # the token-adjacency sheets are about spacing: of the pairs (thorough tier) they get those of two layout preferences
     assigns_adj = [a for a in assigns if a[0] != 'pair' or all(k in LAYOUT for k in a[1])]
+    # the number grid is about how a number is written: of the pairs it gets those with omitLeadingZero
+    assigns_num = [a for a in assigns if a[0] != 'pair' or 'omitLeadingZero' in a[1]]
     res = {'n': 0, 'doms': 0, 'skipped': {}, 'fails': [], 'known': {}, 'kinds': set(), 'nfail': {}}
     try:
         for label, src, info in srcs[lo:hi]:
-            r = evaluate(cssutils, label, src, assigns_adj if info.get('family') == 'adjacency' else assigns if info.get('core') else assigns_rest)
+            r = evaluate(cssutils, label, src, assigns_adj if info.get('family') == 'adjacency' else assigns_num if info.get('family') == 'numbers' else assigns if info.get('core') else assigns_rest)
             res['n'] += r['n']
             if r['skipped']:
                 key_ = r['skipped'].split(':')[0]
@@ -1265,10 +1319,15 @@ def matrix(ctx):
                                 'with the documented effects applied, the spelling preferences show as documented, useDefaults() restores the default bytes; distinct = assignments x construct kinds of the DOMs',
                         'bound': '%d assignments (%s; the pairs only on the %d core sources, on the token-adjacency sheets only pairs of layout preferences) x %d DOM sources (%d used, skipped %s): %s; %d hand-written sheets; %d token-adjacency sheets '
                                  '(unknown at-rule: ordered pairs of %d token classes (+ block) separated by a blank%s; selectors: 6 compounds x 4 combinators x 11 compounds; 23 media lists x 4 holders; '
-                                 '7 values of neighbouring / nested functions)' % (
+                                 '7 values of neighbouring / nested functions); %d number-grid sheets (every spelling sign %s x integer part %s x fraction %s x unit %s - %d spellings - as component of a '
+                                 'value list, as function argument, px also as calc() operand%s; under every assignment but the pairs without omitLeadingZero); every single-component value sheet of the '
+                                 'generator (%d) is a core source' % (
                             len(assigns), ', '.join('%d %s' % (v, k) for k, v in sorted(by.items())), sum(1 for x in srcs if x[2].get('core')), n, doms, json.dumps(skipped, sort_keys=True),
                             gen.ENUMERATION[ctx.tier][:160], len(EXTRA), sum(1 for x in srcs if x[2].get('family') == 'adjacency'), len(TOKEN_POOL),
-                            ', also inside the block and inside @media' if ctx.tier == 'thorough' else ''),
+                            ', also inside the block and inside @media' if ctx.tier == 'thorough' else '',
+                            sum(1 for x in srcs if x[2].get('family') == 'numbers'), NUM_SIGNS, NUM_INTS, ['none'] + NUM_FRACS[1:], NUM_UNITS,
+                            sum(len(number_spellings(s_, i_, u_)) for s_ in NUM_SIGNS for i_ in NUM_INTS for u_ in NUM_UNITS),
+                            ', each spelling alone in a valid declaration' if ctx.tier == 'thorough' else '', sum(1 for x in srcs if x[0].startswith('value/single'))),
                         'samples': [{'assignment': {'keepComments': False, 'omitLastSemicolon': False}, 'source': 'a { color: red; /*last*/ }'}],
                         'exhaustive': False, 'wall_s': round(time.time() - t0, 1), 'known_class_evaluations': {k: v['count'] for k, v in sorted(known.items())}, 'failures': nfail})
 
